@@ -22,7 +22,7 @@ PID = "C14"
 
 BOUNDS = {
     "quick": {"M": 20, "Mf": 10, "K": 32, "N_expr": 11, "N_start": 14},
-    "thorough": {"M": 48, "Mf": 16, "K": 64, "N_expr": 14, "N_start": 18},
+    "thorough": {"M": 64, "Mf": 18, "K": 64, "N_expr": 15, "N_start": 19},
 }
 
 
